@@ -378,6 +378,8 @@ def main(tier):
     except ImportError:
         pass
     check_inversion(rep)
+    import crcfold
+    crcfold.check(rep, 400)
     import bounds
     bounds.check(rep, {'crc', 'crc_copy', 'adler'}, 'CRC', 30)
     bounds.check_len_width(rep, {'crc', 'crc_copy', 'adler'}, 'CRC', 31)
